@@ -1158,6 +1158,8 @@ def fam_rayon_mmap(rng):
     # files that open, seek and read but may refuse mmap (sysfs / procfs); skipped by the driver when absent
     out = [{"kind": "mmap_special", "path": p} for p in ("/sys/kernel/btf/vmlinux", "/proc/self/maps",
                                                           "/sys/kernel/notes")]
+    # unseekable sources (named pipes fed by a writer thread) around the mapping threshold
+    out += [{"kind": "mmap_special", "path": "fifo:%d" % n} for n in (0, 1, 16383, 16384, 16385, 70000)]
     mi = 0
     for n in (0, 1, 1025, 16383, 16384, 16385, 32769, 70001, 131073, 200000):
         for via in ("rayon", "mmap", "mmap_rayon"):
